@@ -50,7 +50,9 @@ def model_value(v):
     return v.sexpr()
 
 
-def discharge(ob, axioms=(), nat_consts=(), timeout_ms=10000, use_cvc5=True) -> Verdict:
+def discharge(ob, axioms=(), nat_consts=(), timeout_ms=10000, use_cvc5=True, long_retry=None) -> Verdict:
+    if long_retry is None:
+        long_retry = timeout_ms >= 20000
     s = z3.Solver()
     s.set("timeout", timeout_ms)
     for a in axioms:
@@ -70,13 +72,15 @@ def discharge(ob, axioms=(), nat_consts=(), timeout_ms=10000, use_cvc5=True) -> 
         return Verdict(ob.name, "refuted", "z3", dt, model_dict(m), str(m), ob.where, ob.note, ob.kind)
     smt2 = s.to_smt2()
     if use_cvc5:
-        v = run_cvc5(smt2, max(20, timeout_ms // 500))
+        v = run_cvc5(smt2, max(10, timeout_ms // 500))
         if v is not None:
             st, secs, txt = v
             if st == "unsat":
                 return Verdict(ob.name, "discharged", "cvc5", dt + secs, where=ob.where, note=ob.note, kind=ob.kind)
             if st == "sat":
                 return Verdict(ob.name, "refuted", "cvc5", dt + secs, {}, txt, ob.where, ob.note, ob.kind)
+    if not long_retry:
+        return Verdict(ob.name, "unknown", "z3+cvc5", dt, where=ob.where, note=ob.note + f" [{s.reason_unknown()}]", kind=ob.kind, smt2=smt2)
     # last attempt: z3 with 6x budget
     s.set("timeout", timeout_ms * 6)
     t0 = time.time()
